@@ -148,7 +148,7 @@ pub fn gen_c10(tier: &str, seed: u64) -> Vec<Vec<String>> {
         }
     }
     // (c) recursive logging from a Display implementation, in a child with a watchdog
-    for (i, (mode, target)) in [("direct", "file"), ("buf:100", "file"), ("direct", "out"), ("direct", "err"), ("async:5:100", "file"), ("async:5:100", "out")].iter().enumerate() {
+    for (i, (mode, target)) in [("direct", "file"), ("buf:100", "file"), ("direct", "out"), ("direct", "err"), ("async:5:100", "file"), ("async:5:100", "out"), ("buf:100", "out"), ("buf:8192", "err")].iter().enumerate() {
         cases.push(vec![format!("CASE std C10 rec{i}"), format!("RECURSE {mode} {target}"), "END".into()]);
         for depth in [2u32, 3, 5] {
             cases.push(vec![format!("CASE std C10 rec{i}d{depth}"), format!("RECURSE {mode} {target} {depth}"), "END".into()]);
